@@ -261,6 +261,8 @@ def r4(fx):
         yield _png_ob(fx, it, fn, f'dpi=300 {kw}', (11, 11), 2, 1, dict(kw, dpi=300))
     for kw in CROSSED:
         yield _png_ob(fx, it, fn, f'{kw} size=21 scale=1 border=None', (21, 21), 1, None, dict(kw))
+    # everything transparent is a (degenerate) member of the colour domain, too
+    yield _png_ob(fx, it, fn, "{'dark': None, 'light': None} size=11 scale=2 border=1", (11, 11), 2, 1, {'dark': None, 'light': None})
     m, rec, rs, zs = _run(fx, it, 'write_png', (11, 11), 1, 0, kw={'dpi': 300, 'compresslevel': 3}, typed=_typed(fx, (11, 11), {}))
     try:
         png = render.decode_png(rec.data())
